@@ -20,7 +20,7 @@ LEVEL_NOTE = ("Trusted: starlette/instrumentation shims, virtual clock, store su
               "Faults beyond the configured backoff budget are exempt (the store is down) and only counted.")
 DESIGN_REF = "§5 C15"
 RULE = "case = (outcomes-family program, store kind, fault plan); distinct = hash of (tick-order signature, fault plan); non-trivial = the run ended"
-REQUIRED_REACH = ["run_ended", "ended_result", "ended_failed", "ended_cancelled", "ended_timeout", "status_history_eval", "fault_injected", "store_sqlite", "store_memory", "slow_store", "hitl_case", "hitl_run_ended", "hitl_send_near_terminal"]
+REQUIRED_REACH = ["run_ended", "ended_result", "ended_failed", "ended_cancelled", "ended_timeout", "status_history_eval", "fault_injected", "store_sqlite", "store_memory", "slow_store", "hitl_case", "hitl_run_ended", "hitl_send_near_terminal", "hitl_cancel_case", "hitl_cancel_after_idle_release"]
 ASSUMPTIONS = ["persistence_backoff=[0.5, 3]: up to 2 consecutive failures of one write are 'transient'"]
 
 
@@ -176,8 +176,14 @@ def gen_hitl(seed):
         sends.append({"at": at, "key": k})
         for _ in range(rnd.randint(2, 4)):
             sends.append({"at": at + rnd.choice([0, 0, 0.001, 0.05, 0.2, 0.4, 0.6, 0.9, 1.2]), "key": k})
-    return {"seed": seed, "kind": "hitl", "spec": spec, "keys": keys, "store": rnd.choice(["sqlite", "memory"]), "store_latency": lat, "sends": sends,
+    case = {"seed": seed, "kind": "hitl", "spec": spec, "keys": keys, "store": rnd.choice(["sqlite", "memory"]), "store_latency": lat, "sends": sends,
             "idle_timeout": rnd.choice([1000.0, 1000.0, 1.0])}
+    if rnd.random() < 0.3:
+        # nobody answers; the user cancels the waiting run through the service — while it is in memory, or after idle release
+        case["sends"] = []
+        case["idle_timeout"] = rnd.choice([1000.0, 1.0, 1.0])
+        case["cancel_at"] = t0 + rnd.choice([0, 2.0, 6.0])
+    return case
 
 
 def run_hitl(case, acc):
@@ -200,6 +206,12 @@ def run_hitl(case, acc):
                 await proc.send("h1", "Answer", {"key": sd["key"]}, cs.tr.rec)
 
             tasks = [asyncio.ensure_future(send_at(sd)) for sd in case["sends"]]
+            if case.get("cancel_at") is not None:
+                await asyncio.sleep(case["cancel_at"])
+                try:
+                    out["cancel"] = await proc.server._service.cancel_handler("h1")
+                except Exception as e:  # noqa: BLE001
+                    out["cancel_err"] = repr(e)
             await asyncio.sleep(300)
             out["h"] = sr.handler_view(await proc.handler("h1"))
 
@@ -231,6 +243,16 @@ def run_hitl(case, acc):
             if any(t_term - 1.0 <= sd["at"] <= t_term + 0.05 for sd in case["sends"]):
                 acc.hit("hitl_send_near_terminal")  # a send accepted around the instant the terminal status was stored
         hv = out.get("h")
+        if case.get("cancel_at") is not None:
+            acc.hit("hitl_cancel_case")
+            if case["idle_timeout"] < 100:
+                acc.hit("hitl_cancel_after_idle_release")
+            if out.get("cancel") == "cancelled" and (hv is None or hv["status"] != "cancelled"):
+                acc.violation({"mech": "handler_status_does_not_match_outcome", "outcome": "cancelled", "status": hv and hv["status"], "scenario": "cancel_waiting_run",
+                               "idle_released": case["idle_timeout"] < 100},
+                              f"cancel_handler answered 'cancelled' for a waiting run (idle_timeout={case['idle_timeout']}) but the stored handler is {hv}; "
+                              f"history {[x['status'] for x in hist]}", wit)
+            return
         ended = any(t["exit"] for t in cs.tr.ticks)
         if ended:
             acc.hit("hitl_run_ended")
